@@ -38,7 +38,7 @@ func ruleFinalize(c *Ctx) *RuleResult {
 	}
 	type site struct {
 		rel, name string
-		deferOK    bool // release may live in a deferred closure of the function
+		deferOK   bool // release may live in a deferred closure of the function
 	}
 	for _, s := range []site{{"runtime", "(*runtimeContextManager).PopContext", false}, {"runtime", "(*Runtime).runPendingFinalizers", false}, {"runtime", "(*Runtime).Close", true}} {
 		f := p.Func(s.rel, s.name)
@@ -218,7 +218,9 @@ func ruleFinalize(c *Ctx) *RuleResult {
 		if o == nil {
 			return "?"
 		}
-		if cst, ok := o.(interface{ Val() interface{ String() string } }); ok {
+		if cst, ok := o.(interface {
+			Val() interface{ String() string }
+		}); ok {
 			return cst.Val().String()
 		}
 		return "?"
